@@ -222,7 +222,7 @@ def kernel_Fq_Iq(reg, prop):
                 # history independence: what is returned does not alias the reused buffer
                 alias = any(isinstance(x, SArr) and x.buf is result.buf for x in (F1, F2))
                 reg.prove("%s.Kernel.Fq.returned_arrays_do_not_alias_result_buffer.%s" % (prop, tag),
-                          pc, z3.BoolVal(not alias), function=MOD + ".Kernel.Fq")
+                          pc, z3.BoolVal(not alias), function=MOD + ".Kernel.Fq", replay=lambda mdl=None: replay_alias())
                 # Iq
                 iq = it.get_func(MOD, "Kernel.Iq")
                 out = it.call(iq, [selfo, details, values, cutoff, magnetic])
@@ -244,4 +244,30 @@ def kernel_Fq_Iq(reg, prop):
                 reg.prove("%s.Kernel.Iq.frame.values_unmodified.%s" % (prop, tag), pc,
                           values.buf.get(i) == v0(i), function=MOD + ".Kernel.Iq")
             it = Interp(reg)
+            it.poison_one_arm = False     # fork rather than poison: aliasing may differ between branches
             it.run_paths(body)
+
+
+
+def replay_alias():
+    """Real kernels: the arrays returned by call_Fq must not change when the same kernel is evaluated again
+    (monodisperse, unit-weight and dispersed calls)."""
+    import numpy as np
+    from sasmodels import core
+    from sasmodels.direct_model import call_Fq
+    bad, out = False, []
+    q = np.array([0.01, 0.05, 0.2])
+    for name in ("sphere", "vesicle"):
+        k = core.load_model(name).make_kernel([q])
+        for first in ({"radius": 40.0}, {"radius": 40.0, "radius_pd": 0.2, "radius_pd_n": 8}):
+            r1 = call_Fq(k, dict(first))
+            keep = [None if a is None else np.array(a, copy=True) for a in r1[:2]]
+            call_Fq(k, {"radius": 75.0})
+            same = all((a is None and b is None) or (a is not None and np.array_equal(np.asarray(a), b))
+                       for a, b in zip(r1[:2], keep))
+            if not same:
+                bad = True
+                out.append({"model": name, "first_call": first,
+                            "F2_then": keep[1].tolist(), "F2_after_second_call": np.asarray(r1[1]).tolist()})
+    return bool(bad), {"call": "call_Fq(kernel, p1) ; call_Fq(kernel, p2) ; inspect the arrays returned by the first call",
+                       "real": out, "spec": "unchanged by the second evaluation"}
